@@ -221,6 +221,53 @@ def cpu_equivalence(cr: CheckRun, n: int) -> None:
     cr.cov["evaluations"] += done
 
 
+def device_tasks(cr: CheckRun, n: int) -> None:
+    """The device tasks of async_devices.rs are clients of the scheduler like any scripted task: the display task (an event every
+    `period` cycles, `frames` times) and the timer/keyboard task (one tick per cycle) must be indistinguishable, under every
+    partition into budgets, from the scripts [S period; E] x frames and [S 1] x ticks - whose behaviour Scheduler.tla fixes and
+    the scripted campaign validates - and the machine ticked through the scheduler must equal the machine ticked by a plain loop."""
+    rnd = random.Random(cr.seed + 181)
+    vh = Vh()
+    done = 0
+    try:
+        for k in range(n):
+            period = rnd.choice([0, 1, 2, 3, 5, 8])
+            frames = rnd.choice([0, 1, 2, 3, 4])
+            clock0 = rnd.choice([0, 0, 7, 1000])
+            budgets = [rnd.choice([1, 2, 3, 5, 9, 40]) for _ in range(rnd.randint(1, 8))]
+            total = sum(budgets)
+            endless = rnd.random() < 0.4
+            ticks = 0 if endless else rnd.choice([1, 2, 5, total, total + 3, max(1, total - 2)])
+            off = endless and rnd.random() < 0.3
+            cfg = {"timer": {"enabled": rnd.random() < 0.9, "pm": rnd.choice([0, 1, 2, 3, 7]), "ps": rnd.choice([0, 2, 5, 11])},
+                   "imem": [[0xFB, rnd.choice([0x00, 0x83])]]}
+            r = vh.call("driver.devices", cfg=cfg, ticks=ticks, period=period, frames=frames, clock=clock0, budgets=budgets, off=off)
+            scripts = [[["S", 1]] * (ticks if ticks else total + 5)]
+            if frames:
+                scripts.append(sum(([["S", max(1, period)], ["E"]] for _ in range(frames)), []))
+            vh.call("driver.new", scripts=scripts, clock=clock0)
+            want = []
+            for b in budgets:
+                q = vh.call("driver.run_for", b=b)
+                want.append([1 if q["ev"] else 0, q["clock"], q["cycles"]])
+            got = [[1 if x[0] else 0, x[1], x[2]] for x in r["runs"]]
+            done += 1
+            rep = {"kind": "devices", "cfg": cfg, "ticks": ticks, "period": period, "frames": frames, "clock": clock0, "budgets": budgets, "off": off}
+            if got != want:
+                cr.violation("DeviceTaskAsScript", f"display task (period {period}, {frames} frames) + timer task ({ticks or 'endless'} ticks) under budgets {budgets}: "
+                             f"run_for returned (event, clock, cycles) {got}, the equivalent scripted tasks {want}", rep)
+            elif r["async"]["timer"] != r["sync"]["timer"] or r["async"]["imem"] != r["sync"]["imem"]:
+                dk = [k2 for k2 in r["sync"]["timer"] if r["sync"]["timer"][k2] != r["async"]["timer"].get(k2)]
+                cr.violation("DeviceTickEquivalence", f"timer/keyboard task ({ticks or 'endless'} ticks, off={off}) under budgets {budgets} from clock {clock0}: the machine differs from one "
+                             f"ticked by a plain loop in timer fields {dk} / ISR {r['async']['imem'][0xFC]:#x} vs {r['sync']['imem'][0xFC]:#x}", rep)
+            if k == 0:
+                cr.add_sample({"campaign": "device-tasks", **rep})
+    finally:
+        vh.close()
+    cr.cov["device_task_runs"] = done
+    cr.cov["evaluations"] += done
+
+
 def run(cr: CheckRun) -> None:
     vlib.build_vh()
     quick = cr.tier == "quick"
@@ -249,6 +296,7 @@ def run(cr: CheckRun) -> None:
     rnd = random_behaviours(cr.seed, 1500 if quick else 20000)
     campaign(cr, rnd, "random")
     cpu_equivalence(cr, 120 if quick else 1500)
+    device_tasks(cr, 400 if quick else 6000)
     cr.cov["distinct_nontrivial"] = len({json.dumps(b, sort_keys=True) for b in items + sitems + rnd})
     cr.cov["rule"] = "distinct (task scripts, budget sequence) behaviours executed on the real AsyncDriver"
     cr.cov["trusted_base"] = ["vh harness (driver.rs, rt.rs)", "TLC", "lib/vlib.py"]
@@ -272,6 +320,10 @@ def replay(path: str) -> int:
             for b in bad:
                 print("REJECTED", b)
             return 1 if any(b["clause"] in PROPERTY_CLAUSES for b in bad) else 0
+        if rec.get("kind") == "devices":
+            r = vh.call("driver.devices", cfg=rec["cfg"], ticks=rec["ticks"], period=rec["period"], frames=rec["frames"], clock=rec["clock"], budgets=rec["budgets"], off=rec["off"])
+            print("runs:", r["runs"], "timer equal:", r["async"]["timer"] == r["sync"]["timer"])
+            return 1 if r["async"]["timer"] != r["sync"]["timer"] or r["async"]["imem"] != r["sync"]["imem"] else 0
         r = vh.call("driver.cpu_equiv", cfg=rec["cfg"], chunks=rec["chunks"], slice=rec["slice"], events=rec.get("events", []), ranges=[[0xBFE00, 0x200]])
         diff = [k for k in r["sync"] if r["sync"][k] != r["async"].get(k)]
         print("diff keys:", diff)
